@@ -72,6 +72,13 @@ def stepLine (n : Net) : List String → Net × String
       (n', "ok | " ++ digest n')
     | _, _, _, _, _, _, _, _ => (n, "bad-op")
   | ["noop"] => (n, "success | " ++ digest n)
+  | ["blockset", m] =>
+    -- the set of closed directions is made equal to the matrix (row = sender) by a run of `setBlock` operations
+    let rows := (m.splitOn "/").map String.toList
+    let k := n.nodes.length
+    let n' := (List.range k).foldl (fun acc x => (List.range k).foldl (fun acc y =>
+      (step acc (.setBlock x y (((rows.getD x []).getD y '0') == '1'))).1) acc) n
+    (n', "success | " ++ digest n')
   | ws =>
     match parseOp ws with
     | some op => let (n', o) := step n op; (n', showOut o ++ " | " ++ digest n')
